@@ -24,7 +24,7 @@ RULE = (
     "with >= 2 fields; distinct = distinct (hierarchy source, order, first accessor)"
 )
 ASSUMPTIONS = ["dataclass field merge order computed from the spec is cross-checked against dataclasses.fields on every class"]
-MUST_SEE = ["same_named_class_pairs", "equal_twin_with_reused_id", "explicit_hash_flag", "init_false_and_compare_false", "subclass_first", "base_first", "falsy_children", "empty_tuples", "overrides", "positional_calls", "multiple_inheritance", "accessor_calls"]
+MUST_SEE = ["returned_sequence_mutated_by_caller", "same_named_class_pairs", "equal_twin_with_reused_id", "explicit_hash_flag", "init_false_and_compare_false", "subclass_first", "base_first", "falsy_children", "empty_tuples", "overrides", "positional_calls", "multiple_inheritance", "accessor_calls"]
 CONFIG = {
     "quick": {"shards": 16, "hierarchies": 14, "watchdog_s": 300},
     "thorough": {"shards": 32, "hierarchies": 150, "watchdog_s": 3000},
@@ -342,6 +342,14 @@ def check_instance(ctx, U, cname, inst, detail, rng, full: bool):
             if [id(x) for x in ch] != [id(e[0]) for e in exp_nodes]:
                 bad("children", "children differs")
                 return
+            # the caller may do what it likes with the sequence it was given: later answers are not affected
+            if isinstance(ch, list):
+                ch.append(inst)
+                ch.reverse()
+                ctx.count("returned_sequence_mutated_by_caller")
+                if [id(x) for x in inst.children] != [id(e[0]) for e in exp_nodes]:
+                    bad("children", "children differs after the caller changed the list returned by an earlier call")
+                    return
     cf = C.get_child_fields()
     if [f.name for f in cf] != [f.name for f in childs] or any(f is not dcf[f.name] for f in cf):
         bad("get_child_fields", "get_child_fields differs", got=[f.name for f in cf], exp=[f.name for f in childs])
